@@ -201,9 +201,10 @@ template<typename T, size_t N> static void fill4(Tensor<T,N>& t0, Tensor<T,N>& t
         else vh_fill_frac(ts[k]->data(), N, seed + k, 20, 7);
     }
 }
-template<typename R, size_t N> static void report(long id, const Tensor<R,N>& r, const R* ref) {
+// zeros_equal: min/max of (+0,-0) may return either zero (hardware min/max and std::min/std::max differ there by design)
+template<typename R, size_t N> static void report(long id, const Tensor<R,N>& r, const R* ref, bool zeros_equal = false) {
     int nm = 0; long first = -1;
-    for (size_t i = 0; i < N; ++i) if (!same(r.data()[i], ref[i])) { if (!nm) first = (long)i; ++nm; }
+    for (size_t i = 0; i < N; ++i) if (!same(r.data()[i], ref[i]) && !(zeros_equal && r.data()[i] == (R)0 && ref[i] == (R)0)) { if (!nm) first = (long)i; ++nm; }
     std::printf("S %ld %d %ld\n", id, nm, first);
     vh_line("R", id, r.data(), N);
     if (nm) vh_line("X", id, ref, N);
@@ -231,7 +232,8 @@ def cpp_case(c):
         elif isf or c['aop'] == 3: fin = '(T)(d0 %s %s)' % (BIN[c['aop']], se)
         else: fin = 'w%s<T>(d0, %s)' % ({0: 'add', 1: 'sub', 2: 'mul'}[c['aop']], se)
         L.append('  T ref[N]; for (size_t i = 0; i < N; ++i) { const T d0 = t0.data()[i]; (void)d0; ref[i] = %s; }' % fin)
-        L.append('  report<T,N>(%d, r, ref);' % c['id'])
+        zeq = isf and any(o in ops_of(e) for o in (('bin', 4), ('bin', 5)))
+        L.append('  report<T,N>(%d, r, ref%s);' % (c['id'], ', true' if zeq else ''))
     L.append('}')
     return '\n'.join(L)
 
